@@ -22,6 +22,44 @@ type Codec interface {
 	DecodeBlocked(c ConnReader) ([]byte, error)
 }
 
+// frameChunk is the least readFrame allocates ahead of the octets that have actually arrived.
+const frameChunk = 4 << 10
+
+// readFrame reads the rest of a frame whose length prefix has been read and returns prefix + body. The announced
+// length is not trusted with memory: the buffer is never larger than twice what has arrived (plus frameChunk), so a
+// prefix that announces gigabytes costs nothing until the peer really sends them.
+func readFrame(c io.Reader, prefix []byte, total int) ([]byte, error) {
+	n := len(prefix) + frameChunk
+	if n > total {
+		n = total
+	}
+	buf := make([]byte, len(prefix), n)
+	copy(buf, prefix)
+	for len(buf) < total {
+		start := len(buf)
+		want := start // read as much again as has arrived so far ...
+		if want < frameChunk {
+			want = frameChunk // ... but at least a chunk ...
+		}
+		if want > total-start {
+			want = total - start // ... and never beyond the frame
+		}
+		if cap(buf)-start < want {
+			nb := make([]byte, start, start+want)
+			copy(nb, buf)
+			buf = nb
+		}
+		buf = buf[:start+want]
+		if _, err := io.ReadFull(c, buf[start:]); err != nil {
+			if err == io.EOF && start > len(prefix) {
+				err = io.ErrUnexpectedEOF // the stream ended inside the body, as one ReadFull over the whole body reports it
+			}
+			return nil, err
+		}
+	}
+	return buf, nil
+}
+
 type ConnReader interface {
 	io.Reader
 
